@@ -33,6 +33,7 @@ case "${1:-}" in
   all)
     tier="${2:-quick}"
     [ -x "$BIN" ] || build || exit 1
+    if [ -n "$(find "$VERIF/checker" -name '*.go' -newer "$BIN" -print -quit 2>/dev/null)" ]; then build || exit 1; fi
     exec "$BIN" -prop all -tier "$tier" -repo "$REPO" -verif "$VERIF"
     ;;
   baseline)
